@@ -280,10 +280,17 @@ def sized_bpub(msg, qos, total):
     """a broker PUBLISH whose encoded size (fixed header included) is exactly `total` bytes"""
     import mqttenc as E
     topic = "in/" + msg
-    for fill in range(0, total):
+    base = len(E.publish(topic, msg + "|", qos, pid=1))
+    for fill in range(max(0, total - base - 3), max(0, total - base) + 1):
         if len(E.publish(topic, msg + "|" + "z" * fill, qos, pid=1)) == total:
             return dict(op="bpub", qos=qos, msg=msg, topic=topic, fill="z" * fill)
     return dict(op="bpub", qos=qos, msg=msg)
+
+
+def rl_bpub(msg, qos, rl):
+    """... whose Remaining Length is exactly rl (128, 256, 16384: the length field ends in a continuation byte + 01/02)"""
+    import mqttenc as E
+    return sized_bpub(msg, qos, 1 + len(E.varint(rl)) + rl)
 
 
 def gen_recv(rng, idx):
@@ -298,6 +305,16 @@ def gen_recv(rng, idx):
             if r.random() < 0.7: s.steps.append(sized_bpub("e%d%d" % (idx % 100, q), q, mps - r.choice([0, 0, 1, 2])))
     if r.random() < 0.7: s.sub()
     nb = 0
+    if not mps and r.random() < 0.25:
+        # packets whose Remaining Length field is 80 01 / 80 02 / 80 80 01, cut into reads of 1-3 bytes: the framer sees the
+        # length field end in the middle
+        ch = r.choice([1, 2, 3])
+        s.add(op="set", chunk=ch)
+        for rl in r.sample([128, 256, 384] + ([16384] if ch == 3 and r.random() < 0.4 else []), r.choice([1, 2])):
+            nb += 1; s.steps.append(rl_bpub("w%d%d" % (idx % 100, nb), r.choice([0, 1, 2]), rl))
+            if rl == 16384: s.steps[0]["budget"] = 200000      # 16 KiB in reads of 1-3 bytes: tens of thousands of handlers
+        s.add(op="advance", ms=1)
+        s.add(op="set", chunk=0)
     for _ in range(r.randrange(3, 14)):
         k = r.random()
         if k < 0.45:
@@ -690,6 +707,9 @@ def _hostile_bases():
     B = {
         "connack": E.connack(0, 0, [[33, 10], [39, 1000], [19, 30]] + up),
         "connack0": E.connack(0, 0),
+        "connack_pl80": bytes([0x20, 0x03, 0x00, 0x00, 0x80]),    # Property Length cut off after a continuation byte
+        "pub1_rl128": E.publish("in/r", "h9|" + "p" * 116, 1, pid=12),       # Remaining Length 128: length bytes 80 01
+        "pub0_rl256": E.publish("in/s", "h8|" + "q" * 246, 0),               # Remaining Length 256: length bytes 80 02
         "connack_rm0": E.connack(0, 0, [[33, 0]]),            # Receive Maximum 0: a Protocol Error (finding F14)
         "connack_mps0": E.connack(0, 0, [[39, 0]]),           # Maximum Packet Size 0: a Protocol Error
         "connack_sp": E.connack(1, 0, [[18, "assigned"], [26, "ri"], [28, "ref"]]),
